@@ -409,6 +409,37 @@ HARMLESS_X86 = [
     ("parse_file: positive test instead of continue, lines not bound to a local", dict(HARMLESS_A64[11][1])),
 ]
 
+NUMBERS_OLD = '''        decimal_number = pp.Combine(
+            pp.Optional(pp.Literal("-")) + pp.Word(pp.nums)
+        ).setResultsName("value")
+        hex_number = pp.Combine(
+            pp.Optional(pp.Literal("-")) + pp.Literal("0x") + pp.Word(pp.hexnums)
+        ).setResultsName("value")
+'''
+NUMBERS_HELPER = '''    def _number_grammars(self, hex_prefix="0x"):
+        """decimal and hexadecimal numbers"""
+        def combined(*parts):
+            seq = parts[0]
+            for p in parts[1:]:
+                seq = seq + p
+            return pp.Combine(seq).setResultsName("value")
+
+        return (
+            combined(pp.Optional(pp.Literal("-")), pp.Word(pp.nums)),
+            combined(pp.Optional(pp.Literal("-")), pp.Literal(hex_prefix), pp.Word(pp.hexnums)),
+        )
+
+    def construct_parser(self):
+'''
+EXTRACT = chain(sub(NUMBERS_OLD, "        decimal_number, hex_number = self._number_grammars()\n"),
+                sub("    def construct_parser(self):\n", NUMBERS_HELPER))
+HARMLESS_A64.append(("number grammars extracted into a helper method with a local helper function", {A64: EXTRACT}))
+HARMLESS_X86.append(("number grammars extracted into a helper method with a local helper function", {X86: EXTRACT}))
+HARMLESS_X86.append(("process_memory_address: .get(k) without default / conditional expression instead of .get", {X86: within(
+    "process_memory_address", chain(
+        sub('offset = memory_address.get("offset", None)', 'offset = memory_address.get("offset")'),
+        sub('base = memory_address.get("base", None)', 'base = memory_address["base"] if "base" in memory_address else None')))}))
+
 REAL_A64 = [
     ("comment symbol // -> ;", {A64: sub('symbol_comment = "//"', 'symbol_comment = ";"')}),
     ("shift op ror dropped", {A64: sub('            ^ pp.CaselessLiteral("ror")\n', '')}),
@@ -535,6 +566,10 @@ def main():
         pre = ("ParserX86ATT.", "x86.", "isa") if gen == "X86Parser" else ("ParserAArch64.", "a64.", "isa")
         return {k: v for k, v in pr.items() if k.startswith(pre)}
 
+    def no_digest(text):
+        return "\n".join(l for l in text.split("\n") if not l.startswith(("def grammarDigest", "-- comment:")))
+
+    digest_only = []
     counts = {}
     for gen, harmless, real in (("A64Grammar", HARMLESS_A64, REAL_A64), ("X86Parser", HARMLESS_X86, REAL_X86)):
         n_h = n_r = 0
@@ -569,6 +604,9 @@ def main():
             noticed = st != "ok" or text != base_out[gen]
             n_r += noticed
             how = ("fails: " + text[:90]) if st != "ok" else ("output changes" if noticed else "UNNOTICED")
+            if st == "ok" and noticed and gen == "X86Parser" and no_digest(text) == no_digest(base_out[gen]):
+                how += " (only the digest of the constructed grammar)"
+                digest_only.append(name)
             extra = ""
             if PROBE and VERBOSE:
                 pr = probe(tree)
@@ -580,6 +618,7 @@ def main():
         counts[gen] = (n_h, len(harmless), n_r, len(real))
     for gen, (a, b, c, d) in counts.items():
         print("%s: harmless identical %d/%d, real mutations noticed %d/%d" % (gen, a, b, c, d))
+    print("X86Parser real mutations noticed only through the dynamic grammar digest: %d %r" % (len(digest_only), digest_only))
     shutil.rmtree(ROOT, ignore_errors=True)
     if failures:
         print("FAILED (%d):" % len(failures))
